@@ -14,16 +14,38 @@ constant and the constants differ" is a violation; a value that stays symbolic o
 (counted), an exception on either route is counted per class and the case is dropped (C01/C17 business).
 Failing sequences are shrunk and reported with a narrow signature
       C02:<isa>:<mnemonics of the shrunk sequence joined by +>:<reg|flags|pc|mem>[:<setting suffix>]
+(suffix = the settings under which the shrunk case differs, none when it differs under all four), except:
+  * one defect of the mapper itself that every storing instruction of every ISA shows — with noaliasing=True
+    and memtrace=False a store is kept in the map's own memory only and `state >> map` loses it — gets the
+    single signature `C02:noaliasing=True,memtrace=False:stores-not-composed`, after the mechanism has been
+    verified on the shrunk case (differs under that setting only, bytes keep their start value on route A);
+  * differences caused by the hidden signedness flag `sf` of constants get
+    `C02:<isa>:<mnemonic>:<class>:signedness-flag-carried-between-steps`, where <mnemonic> is the last
+    instruction of the shrunk sequence that changes the differing location on route B.  Mechanism check:
+    the shrunk case is re-run (both routes) in a world where the flag cannot matter — `cst.value` patched
+    for the duration of the check to read every constant as unsigned, then as two's complement — and the
+    difference must disappear in one of the two worlds.  (Why not "neutralise sf in route B between the
+    steps": that never changes route B.  The state map already drops the flag when a value is stored and
+    read back — `r[pos:pos+size] = v`, then `r[0:size]` — it is the evaluated block expression of route A
+    that carries the flag of an intermediate constant (`cst(v<0)` sets it) across what were step boundaries,
+    and inside one instruction both routes build the constants themselves.)
+  * a multi-instruction shrunk sequence whose prefix (without the last instruction) already differs in
+    another class is reported under the signature of that prefix's own finding: `mulscc+st:mem` is
+    `mulscc:reg` seen through memory.
+Scope: with noaliasing=True the property is limited to states in which distinct symbolic pointers do not
+overlap; a difference found under noaliasing=True is dropped (and counted) when two accesses of the map
+(one of them a store) with different symbolic bases overlap in the concrete state.
 
 Nothing here depends on the Lean model: the only things trusted are amoco's own public API
 (mapper.__setitem__/__getitem__, `>>`, MemoryMap.write/read) used to build/read concrete states.
 
 Precautions against false alarms
   * states are rebuilt from scratch for each route (no deepcopy), instructions are decoded again for each
-    route, routes run in a fixed order (A map, then per state: A composition, B);
-  * before every decode/route the process-global expression objects of the ISA (registers, slices …:
-    their `sf`/`size`, mutated by some semantics — a C10 defect) and the `internals` dictionaries
-    (arm isetstate/itstate/endianstate, x86 mode …) are put back to their import-time values;
+    route, routes run in a fixed order (per state: A = map + composition, then B);
+  * at the start of every route (before its decode, never in the middle of a route) the process-global
+    expression objects of the ISA (registers, slices …: their `sf`/`size`, mutated by some decoders and
+    semantics — a C10 defect) and the `internals` dictionaries (arm isetstate/itstate/endianstate, x86
+    mode …) are put back to their import-time values: each route behaves as in a fresh process;
   * every instruction gets `i.address` (consecutive from 0x1000, the value of the pc register in the state);
   * pending delayed register writes (mips load delay: mapper.delayed) are flushed with update_delayed()
     at the end of both routes;
@@ -39,18 +61,38 @@ import sys, os, time, signal
 from common import *
 import isa, c10
 from amoco.config import conf
+from amoco.cas import expressions as _E
 from amoco.cas.expressions import exp, cst, reg, regtype, locations_of
 from amoco.cas.mapper import mapper
 from amoco.arch import core as acore
 
 BROKEN = "C02 uniformity of ISA semantics / block map vs step-by-step"
+STORE_LOST_SIG = "C02:noaliasing=True,memtrace=False:stores-not-composed"    # one for all ISAs (see the module docstring)
+SF_SUFFIX = "signedness-flag-carried-between-steps"
+REEVAL_SUFFIX = "semantics-re-evaluate-an-operand-in-the-map-built-so-far"
+# Scope of the signatures of the two families that are recognised by a mechanism check (the check is what
+# keeps them narrow).  The signedness-flag family is a defect of the expression layer, not of an instruction:
+# any semantics that compares, multiplies, divides or shifts shows it when an intermediate value has its top
+# bit set; the re-evaluation family is one coding pattern (fmap(fmap(x)), fmap[mem(fmap(a))]) repeated in the
+# functions of an ISA's asm.py.  The sets of mnemonics and classes met keep growing with the seeds, so the
+# default is one signature per ISA; the mnemonic that computed the differing value is in the case ("culprit").
+#   "isa": C02:<isa>:<suffix>     "isa+class": C02:<isa>:<class>:<suffix>
+#   "isa+mnemonic+class": C02:<isa>:<culprit mnemonic>:<class>:<suffix>
+FAMILY_SCOPE = "isa"
+
+
+def family_signature(isa_name, mnemonic, cls, suffix):
+    if FAMILY_SCOPE == "isa":
+        return "C02:%s:%s" % (isa_name, suffix)
+    if FAMILY_SCOPE == "isa+class":
+        return "C02:%s:%s:%s" % (isa_name, cls, suffix)
+    return "C02:%s:%s:%s:%s" % (isa_name, mnemonic, cls, suffix)
 SETTINGS = [(True, True), (True, False), (False, True), (False, False)]     # (noaliasing, memtrace)
 LOW_N = 0x20000          # window 1: addresses [0, LOW_N)
 HIGH_N = 0x10000         # window 2: the top HIGH_N bytes of the address space (negative displacements)
 BASE_ADDR = 0x1000       # address of the first instruction = value of the pc register
 NSTATES = 3
 UNMAPPED = -1
-CASE_TIMEOUT = 8.0       # seconds; a (sequence,setting) evaluation taking longer is dropped
 
 
 class _Timeout(BaseException):
@@ -129,6 +171,9 @@ class Ctx(object):
             self.windows.append(((1 << self.psize) - HIGH_N, membank[self.e][1]))
         self.modes = list(range(I.nsets)) if name == "armv7" else [0]
         self.pools = {}
+        self.usable = {}
+        self.selfw = {}
+        self.dropped = {}
         self.sigs = []          # shrunk failures already seen: (mnemonics tuple, class, failing settings)
         self.mnems = set()
 
@@ -158,7 +203,6 @@ class Ctx(object):
             i.address = cst(addr, self.pcsize)
             addr += len(i.bytes)
             out.append(i)
-        self.restore(mode)
         return out
 
     def build_pools(self, r):
@@ -166,6 +210,7 @@ class Ctx(object):
         for mode in self.modes:
             cats = {"dp": [], "mem": [], "cf": [], "other": []}
             pfx = []
+            usable = []             # (mnemonic, index, spec) of every spec with a sample that executes
             try:
                 specs = isa.module_specs(self.I, mode)
             except Exception:
@@ -178,39 +223,145 @@ class Ctx(object):
                     got = self.sample_spec(mode, s, r)
                     if got is None:
                         continue
-                    bs, i = got
+                    bs, i, m = got
                     cat = {acore.type_data_processing: "dp", acore.type_control_flow: "cf"}.get(i.type, "other")
                     if cat != "cf":
                         try:
-                            self.restore(mode)
-                            m = mapper()
-                            i(m)
+                            if len(m.mmap._zones) > 1 or m.mmap._zones[None]._map:
+                                cat = "mem"           # a store (whatever memtrace says, the map's own memory has it)
                             for loc, v in m:
                                 if loc._is_ptr or any(x._is_mem for x in locations_of(v)):
                                     cat = "mem"
-                        except BaseException as ex:
-                            if isinstance(ex, (KeyboardInterrupt, _Timeout)):
-                                raise
+                        except Exception:
+                            pass
                     cats[cat].append(s)
+                    usable.append((i.mnemonic, len(usable), s))
                     break
             self.pools[mode] = (cats, pfx)
+            self.usable[mode] = usable
         self.restore(0)
 
     def sample_spec(self, mode, s, r, pfx=None):
-        """fresh spec-directed bytes of spec s that decode to an instruction with semantics"""
+        """fresh spec-directed bytes of spec s that decode to an instruction with semantics which, alone on
+        an empty map, executes without raising (raising semantics are C17's business: such instructions
+        are dropped from the sequences and counted); returns (bytes, instruction, its map)"""
         try:
             bs = isa.directed_bytes(s, self.e, r)
             if pfx is not None:
                 bs = isa.directed_bytes(pfx, self.e, r, tail=0) + bs
             self.restore(mode)
             i = self.I.dis(bs)
-        except BaseException as ex:
-            if isinstance(ex, (KeyboardInterrupt, _Timeout)):
-                raise
+        except Exception:
+            self.dropped["decode raises"] = self.dropped.get("decode raises", 0) + 1
             return None
-        if i is None or ("i_%s" % i.mnemonic) not in self.uarch:
+        if i is None:
             return None
-        return bytes(bs[:len(i.bytes)]), i
+        if ("i_%s" % i.mnemonic) not in self.uarch:
+            self.dropped["no i_MNEMONIC"] = self.dropped.get("no i_MNEMONIC", 0) + 1
+            return None
+        try:
+            i.address = cst(BASE_ADDR, self.pcsize)
+            m = mapper()
+            i(m)
+        except Exception as ex:
+            k = "semantics raise " + type(ex).__name__
+            self.dropped[k] = self.dropped.get(k, 0) + 1
+            return None
+        finally:
+            self.restore(mode)
+        return bytes(bs[:len(i.bytes)]), i, m
+
+    @staticmethod
+    def map_inputs(m):
+        """names of the registers a (single-instruction) map reads: in its values, in its store addresses"""
+        es = []
+        for loc, v in m:
+            es.append(v)
+            if loc._is_ptr:
+                es.append(loc.base)
+        for k, z in m.mmap._zones.items():
+            if k is not None:
+                es.append(k)
+            for o in z._map:
+                if not o.data._is_raw:
+                    es.append(o.data.val)
+        out, todo = set(), es
+        while todo:
+            e = todo.pop()
+            try:
+                for l in locations_of(e):
+                    if l._is_reg:
+                        if not (l.etype & regtype.PC):
+                            out.add(l.ref)
+                    elif l._is_mem:
+                        todo.append(l.a.base)
+                    elif l._is_ptr:
+                        todo.append(l.base)
+            except Exception:
+                pass
+        return out
+
+    @staticmethod
+    def map_outputs(m):
+        return set(loc.ref for loc, _ in m if loc._is_reg and not (loc.etype & regtype.PC))
+
+    def self_writers(self, mode, r, n):
+        """register name -> byte strings of instructions X whose new value of that register mentions a
+        register X itself modifies (r := r - s, pop, post-increment …): evaluating such a value a second
+        time in the map is not idempotent"""
+        if mode in self.selfw:
+            return self.selfw[mode]
+        cats, _ = self.pools[mode]
+        pool = cats["dp"] * 3 + cats["mem"] + cats["other"]
+        out, wr, nok = {}, {}, 0
+        for _ in range(n if pool else 0):
+            gx = self.sample_spec(mode, r.choice(pool), r)
+            if gx is None:
+                continue
+            outs = self.map_outputs(gx[2])
+            nok += 1
+            for o in outs:
+                wr[o] = wr.get(o, 0) + 1
+            for loc, v in gx[2]:
+                if loc._is_reg and loc.ref in outs and len(out.get(loc.ref, ())) < 6:
+                    try:
+                        syms = set(x.ref for x in locations_of(v) if x._is_reg)
+                    except Exception:
+                        continue
+                    if syms & outs:
+                        out.setdefault(loc.ref, []).append(gx[0])
+        for o, c in wr.items():
+            if c > 0.8 * nok:
+                out.pop(o, None)        # written by (almost) every instruction: a second program counter (mips/sparc npc)
+        self.selfw[mode] = out
+        return out
+
+    def gen_pair(self, mode, s, r, nwriters=300):
+        """[X, Y]: Y a fresh sample of spec s, X an instruction that writes a register Y reads, if possible
+        one of self_writers() — the interleaving on which semantics that evaluate an operand twice go wrong"""
+        sw = self.self_writers(mode, r, nwriters)
+        plain = None
+        for _ in range(8):
+            got = self.sample_spec(mode, s, r)
+            if got is None:
+                continue
+            ybs, _, my = got
+            need = self.map_inputs(my)
+            hit = sorted(need & set(sw))
+            if hit:
+                return [r.choice(sw[r.choice(hit)]), ybs]
+            if plain is None and need:
+                plain = (ybs, need)
+        if plain is None:
+            return None
+        ybs, need = plain
+        cats, _ = self.pools[mode]
+        pool = cats["dp"] * 3 + cats["mem"] + cats["other"]
+        for _ in range(20 if pool else 0):
+            gx = self.sample_spec(mode, r.choice(pool), r)
+            if gx is not None and (self.map_outputs(gx[2]) & need):
+                return [gx[0], ybs]
+        return None
 
     def gen_sequence(self, mode, n, r):
         cats, pfx = self.pools[mode]
@@ -272,6 +423,9 @@ def reg_values(ctx, st):
     out = []
     for r_ in ctx.regs:
         v = st[r_]
+        if not v._is_cst:
+            # a register written by parts holds a composite of constants: { [0:8]->0x2 | [8:16]->0xd | … }
+            v = v.simplify()
         out.append((v.v & ((1 << r_.size) - 1)) if v._is_cst else None)
     return out
 
@@ -337,40 +491,108 @@ def mem_delta(ctx, img):
 
 
 class Res(object):
-    __slots__ = ("exc", "diffs", "nsym_reg", "nsym_mem", "ncmp", "nontrivial", "bsym", "memskip", "unmapped")
+    __slots__ = ("exc", "diffs", "nsym_reg", "nsym_mem", "ncmp", "nontrivial", "bsym", "memskip", "unmapped", "out_of_scope", "same", "bmem")
 
     def __init__(self):
         self.exc = None          # (route, exception class name, message)
-        self.diffs = []          # (class, location name, route A value, route B value)
+        self.diffs = []          # (class, location name, route A value, route B value, register name | address)
         self.nsym_reg = self.nsym_mem = self.ncmp = self.bsym = self.unmapped = 0
         self.nontrivial = False
         self.memskip = None
+        self.same = set()         # registers on which both routes give the same constant
+        self.bmem = {}            # route B: address -> byte for every byte that differs from the start state
+        self.out_of_scope = 0     # differences dropped: the state violates the no-aliasing assumption
 
 
 def _exc(route, ex):
     return (route, type(ex).__name__, str(ex)[:120])
 
 
+def _accesses(m):
+    """every store and load of a map as (kind, base expression | None, offset, nbytes); addresses are
+    expressed over the block's inputs (base None = absolute address)"""
+    acc, vals = [], []
+    for k, z in m.mmap._zones.items():
+        for o in z._map:
+            acc.append(("st", k, o.vaddr, len(o.data)))
+            if not o.data._is_raw:
+                vals.append(o.data.val)
+    for loc, v in m:
+        vals.append(v)
+        if loc._is_ptr:
+            vals.append(loc.base)
+    seen, todo = set(), list(vals)
+    while todo:
+        e = todo.pop()
+        for l in locations_of(e):
+            if l._is_mem:
+                key = (str(l.a), l.size)
+                if key in seen:
+                    continue
+                seen.add(key)
+                b = l.a.base
+                if b._is_cst:
+                    acc.append(("ld", None, (b.v + l.a.disp) & b.mask, l.length))
+                else:
+                    acc.append(("ld", b, l.a.disp, l.length))
+                    todo.append(b)
+            elif l._is_ptr:
+                todo.append(l.base)
+    return acc
+
+
+def aliasing_assumption_violated(m, C):
+    """does the concrete state C make two accesses of the map m (at least one a store) that go through
+    *distinct* symbolic pointers overlap?  Then, with conf.Cas.noaliasing=True, the case is outside the
+    claim of C02 ("limited to states in which distinct symbolic pointers do not overlap")."""
+    try:
+        acc = _accesses(m)
+    except Exception:
+        return False
+    conc = []
+    for kind, base, off, n in acc:
+        if base is None:
+            conc.append((kind, None, off, n))
+            continue
+        try:
+            bv = C(base)
+            if not bv._is_cst:
+                bv = bv.simplify()
+        except Exception:
+            continue
+        if bv._is_cst:
+            conc.append((kind, str(base), (bv.v + off) & bv.mask, n))
+    for x in range(len(conc)):
+        for y in range(x + 1, len(conc)):
+            a, b = conc[x], conc[y]
+            if a[0] == "ld" and b[0] == "ld":
+                continue
+            if a[1] == b[1]:
+                continue
+            if a[2] < b[2] + b[3] and b[2] < a[2] + a[3]:
+                return True
+    return False
+
+
 def evaluate(ctx, mode, bss, sids, setting):
-    """run both routes for one sequence under one setting from the states `sids`; returns [Res]"""
+    """run both routes for one sequence under one setting from the states `sids`; returns [Res].
+    Each route starts from the import-time world (ctx.restore inside ctx.decode) and then runs exactly as a
+    fresh process would: decode, execute, (compose) — nothing is reset in between."""
     conf.Cas.noaliasing, conf.Cas.memtrace = setting
     out = [Res() for _ in sids]
-    # route A, symbolic part (does not depend on the state)
-    try:
-        ins = ctx.decode(mode, bss)
-        if ins is None:
-            raise acore.DecodeError("sequence does not decode again")
-        m = mapper()
-        for i in ins:
-            i(m)
-        m.update_delayed()
-    except Exception as ex:
-        for res in out:
-            res.exc = _exc("A", ex)
-        return out
+    maps = []
     for res, sid in zip(out, sids):
+        maps.append(None)
+        # route A: the map of the whole sequence, built once on an empty mapper, then applied to the state
         try:
-            ctx.restore(mode)
+            ins = ctx.decode(mode, bss)
+            if ins is None:
+                raise acore.DecodeError("sequence does not decode again")
+            m = mapper()
+            for i in ins:
+                i(m)
+            m.update_delayed()
+            maps[-1] = m
             C = ctx.state(sid)
             init_regs = reg_values(ctx, C)
             A = C >> m
@@ -379,6 +601,7 @@ def evaluate(ctx, mode, bss, sids, setting):
         except Exception as ex:
             res.exc = _exc("A", ex)
             continue
+        # route B: the instructions one by one on the state, built again
         try:
             ins = ctx.decode(mode, bss)
             B = ctx.state(sid)
@@ -400,10 +623,13 @@ def evaluate(ctx, mode, bss, sids, setting):
             else:
                 res.ncmp += 1
                 if a != b:
-                    res.diffs.append((reg_class(r_), r_.ref, a, b))
+                    res.diffs.append((reg_class(r_), r_.ref, a, b, r_.ref))
+                else:
+                    res.same.add(r_.ref)
         db = mem_delta(ctx, ib)
         if db:
             res.nontrivial = True
+            res.bmem = db
         if ia[2] or ib[2]:
             res.memskip = "symbolic-zone-on-" + ("A" if ia[2] else "B")
             continue
@@ -421,7 +647,17 @@ def evaluate(ctx, mode, bss, sids, setting):
             else:
                 res.ncmp += 1
                 if a != b:
-                    res.diffs.append(("mem", "M8[0x%x]" % addr, a, b))
+                    res.diffs.append(("mem", "M8[0x%x]" % addr, a, b, addr))
+    if setting[0]:
+        for res, sid, m in zip(out, sids, maps):
+            if res.diffs and res.exc is None and m is not None:
+                try:
+                    ctx.restore(mode)
+                    if aliasing_assumption_violated(m, ctx.state(sid)):
+                        res.out_of_scope = len(res.diffs)
+                        res.diffs = []
+                except Exception:
+                    pass
     return out
 
 
@@ -487,47 +723,250 @@ def explained(ctx, mode, bss, mn, sid, setting, cls):
     return None, cur
 
 
+class _World(object):
+    """for the duration of a `with`: every constant is read as unsigned ("u") or as two's complement ("s"),
+    whatever its signedness flag (amoco reads the flag in `cst.value` only).  Used by the mechanism check
+    of the signedness-flag family, never while the property itself is being checked."""
+
+    def __init__(self, w):
+        self.w = w
+
+    def __enter__(self):
+        self.orig = _E.cst.__dict__["value"]
+        if self.w == "u":
+            _E.cst.value = property(lambda c: c.v)
+        else:
+            _E.cst.value = property(lambda c: (c.v - (1 << c.size)) if (c.v >> (c.size - 1)) & 1 else c.v)
+        return self
+
+    def __exit__(self, *a):
+        _E.cst.value = self.orig
+        return False
+
+
+def _agree(rs, cls, key):
+    """both routes gave the same constant at `key` in evaluation rs"""
+    if rs.exc is not None or rs.out_of_scope or any(d[0] == cls for d in rs.diffs):
+        return False
+    # memory: no byte differs any more, and step-by-step execution still writes this very byte (in the
+    # other world the stores may have moved elsewhere, even out of the compared windows, on both routes)
+    return (rs.memskip is None and isinstance(rs.bmem.get(key), int)) if cls == "mem" else (key in rs.same)
+
+
+def signedness_world(ctx, mode, bss, sid, setting, cls, key):
+    """'u' / 's' when the difference at `key` disappears once every constant is read as unsigned / signed"""
+    for w in ("u", "s"):
+        try:
+            with _World(w):
+                rs = evaluate(ctx, mode, bss, [sid], setting)[0]
+            if _agree(rs, cls, key):
+                return w
+        except _Timeout:
+            raise
+        except Exception:
+            pass
+    return None
+
+
+def split_agrees(ctx, mode, bss, sid, setting, cls, keys):
+    """route A in two blocks — the map of the sequence without its last instruction, then the map of the
+    last instruction built on an empty mapper — gives what step-by-step execution gives at `keys`?
+    Then it is building the last instruction's semantics *on top of a non-empty symbolic map* that goes
+    wrong (an operand evaluated twice: fmap(fmap(x)), or mapper.__setitem__ evaluating again an address
+    that the semantics had already evaluated, after a register it mentions was written in the block)."""
+    try:
+        conf.Cas.noaliasing, conf.Cas.memtrace = setting
+        ins = ctx.decode(mode, bss)
+        m1 = mapper()
+        for i in ins[:-1]:
+            i(m1)
+        m1.update_delayed()
+        m2 = mapper()
+        ins[-1](m2)
+        m2.update_delayed()
+        A2 = (ctx.state(sid) >> m1) >> m2
+        ins = ctx.decode(mode, bss)
+        B = ctx.state(sid)
+        for i in ins:
+            i(B)
+        B.update_delayed()
+        for key in keys:
+            a, b = _value_at(ctx, A2, key), _value_at(ctx, B, key)
+            if not (isinstance(a, int) and isinstance(b, int) and a == b):
+                return False
+        return bool(keys)
+    except _Timeout:
+        raise
+    except Exception:
+        return False
+
+
+def _value_at(ctx, st, key):
+    if isinstance(key, int):
+        p = st.mmap.read(key, 1)[0]
+        return p[0] if isinstance(p, (bytes, bytearray)) else str(p)
+    r_ = [x for x in ctx.regs if x.ref == key][0]
+    v = st[r_]
+    if not v._is_cst:
+        v = v.simplify()
+    return (v.v & ((1 << r_.size) - 1)) if v._is_cst else str(v)
+
+
+def culprit_index(ctx, mode, bss, sid, setting, key):
+    """index of the last instruction of the sequence that changes location `key` on route B"""
+    last = len(bss) - 1
+    try:
+        conf.Cas.noaliasing, conf.Cas.memtrace = setting
+        ins = ctx.decode(mode, bss)
+        B = ctx.state(sid)
+        prev = _value_at(ctx, B, key)
+        for k, i in enumerate(ins):
+            i(B)
+            v = _value_at(ctx, B, key)
+            if v != prev:
+                last, prev = k, v
+    except _Timeout:
+        raise
+    except Exception:
+        pass
+    return last
+
+
 def handle_failure(ck, ctx, stats, mode, bss, sid, setting, res, allow_shrink):
     mn = mnemonics(ctx, mode, bss)
     for cls in sorted(set(d[0] for d in res.diffs)):
-        sig, rest = explained(ctx, mode, bss, mn, sid, setting, cls)
-        if sig is not None:
-            stats["signatures"][sig]["count"] += 1
-            ck.count("violation-instance." + cls)
-            continue
-        if not allow_shrink():
-            ck.count("failure-not-shrunk(budget)")
-            stats["unshrunk"].append({"isa": ctx.name, "bytes": [b.hex() for b in bss], "mnemonics": mn, "class": cls,
-                                      "noaliasing": setting[0], "memtrace": setting[1], "state": sid})
-            continue
-        if not fails(ctx, mode, rest, sid, setting, cls):
-            # the difference is not reproducible on re-evaluation (should not happen: everything is rebuilt)
-            ck.count("failure-not-reproducible")
-            stats["unshrunk"].append({"isa": ctx.name, "bytes": [b.hex() for b in bss], "mnemonics": mn, "class": cls,
-                                      "noaliasing": setting[0], "memtrace": setting[1], "state": sid, "unstable": True})
-            continue
-        cur, failing = shrink(ctx, mode, rest, sid, setting, cls)
-        cmn = mnemonics(ctx, mode, cur)
-        d = fails(ctx, mode, cur, sid, setting, cls) or _first(res, cls)
-        sig = "C02:%s:%s:%s%s" % (ctx.name, "+".join(cmn), cls, setting_suffix(failing))
-        try:
-            text = "; ".join(str(i) for i in ctx.decode(mode, cur))
-        except Exception:
-            text = " ; ".join(cmn)
-        what = ("%s%s: `%s` from concrete state #%d (noaliasing=%s, memtrace=%s): %s is 0x%x when the block map is "
-                "applied to the state but 0x%x when the instructions run one by one on it [differs under: %s]"
-                % (ctx.name, "/thumb" if mode else "", text, sid, setting[0], setting[1], d[1], d[2], d[3],
-                   "all four settings" if len(failing) == 4 else ", ".join(_setting_name(s) for s in failing)))
-        case = {"isa": ctx.name, "mode": mode, "bytes": [b.hex() for b in cur], "mnemonics": cmn,
-                "noaliasing": setting[0], "memtrace": setting[1], "state": sid, "location": d[1],
-                "failing_settings": [list(s) for s in failing],
-                "original_bytes": [b.hex() for b in bss], "original_mnemonics": mn}
-        ctx.sigs.append((tuple(cmn), cls, set(failing), sig))
-        ent = stats["signatures"].setdefault(sig, {"count": 0, "what": what, "case": case})
-        ent["count"] += 1
+        _handle_class(ck, ctx, stats, mode, bss, mn, sid, setting, cls, res, allow_shrink)
+
+
+def _handle_class(ck, ctx, stats, mode, bss, mn, sid, setting, cls, res, allow_shrink, depth=0):
+    """shrink, classify and report the difference of class `cls` of one failing evaluation; returns the
+    signature it was counted under (None when it was not shrunk)"""
+    sig, rest = explained(ctx, mode, bss, mn, sid, setting, cls)
+    if sig is not None:
+        stats["signatures"][sig]["count"] += 1
         ck.count("violation-instance." + cls)
-        ck.report(sig, what, "oracle", BROKEN, case=case, real="%s = 0x%x" % (d[1], d[2]),
-                  expected="%s = 0x%x" % (d[1], d[3]), failing_input_found=True)
+        return sig
+    if not allow_shrink():
+        ck.count("failure-not-shrunk(budget)")
+        stats["unshrunk"].append({"isa": ctx.name, "bytes": [b.hex() for b in bss], "mnemonics": mn, "class": cls,
+                                  "noaliasing": setting[0], "memtrace": setting[1], "state": sid})
+        return None
+    if not fails(ctx, mode, rest, sid, setting, cls):
+        # the difference is not reproducible on re-evaluation (should not happen: everything is rebuilt)
+        ck.count("failure-not-reproducible")
+        stats["unshrunk"].append({"isa": ctx.name, "bytes": [b.hex() for b in bss], "mnemonics": mn, "class": cls,
+                                  "noaliasing": setting[0], "memtrace": setting[1], "state": sid, "unstable": True})
+        return None
+    cur, failing = shrink(ctx, mode, rest, sid, setting, cls)
+    cmn = mnemonics(ctx, mode, cur)
+    rs = evaluate(ctx, mode, cur, [sid], setting)[0]
+    d = _first(rs, cls) or _first(res, cls)
+    sig = "C02:%s:%s:%s%s" % (ctx.name, "+".join(cmn), cls, setting_suffix(failing))
+    note, extra = "", {}
+    if cls == "mem" and set(failing) == {(True, False)} and rs.exc is None and \
+            all(x[2] == ctx.init_byte(x[4]) for x in rs.diffs if x[0] == "mem"):
+        # one defect of the mapper, whatever the instruction and the ISA: with memtrace=False and
+        # noaliasing=True a store is kept in the map's own memory only, `state >> map` never sees it
+        # (the bytes keep their start value on route A)
+        sig = STORE_LOST_SIG
+        note = " (store not recorded in the map: lost by `state >> map`)"
+    else:
+        # (3) seen through another location: the sequence without its last instruction already differs
+        if len(cur) > 1 and depth < 3:
+            prefix = cur[:-1]
+            rp = evaluate(ctx, mode, prefix, [sid], setting)[0]
+            if rp.exc is None and rp.diffs:
+                pmn = cmn[:-1]
+                for c2 in sorted(set(x[0] for x in rp.diffs)):
+                    sig2 = _handle_class(ck, ctx, stats, mode, prefix, pmn, sid, setting, c2, rp, allow_shrink, depth + 1)
+                    if sig2 is not None:
+                        ctx.sigs.append((tuple(cmn), cls, set(failing), sig2))
+                        ck.count("violation-instance-seen-through-another-location." + cls)
+                        return sig2
+        # (3b) the last instruction alone already differs in this class from another start state: the
+        # instructions before it only set up the values it needs
+        if len(cur) > 1 and depth < 3:
+            for sid2 in range(NSTATES):
+                if sid2 == sid:
+                    continue
+                r1 = evaluate(ctx, mode, cur[-1:], [sid2], setting)[0]
+                if r1.exc is None and _first(r1, cls):
+                    sig2 = _handle_class(ck, ctx, stats, mode, cur[-1:], cmn[-1:], sid2, setting, cls, r1, allow_shrink, depth + 1)
+                    if sig2 is not None:
+                        ctx.sigs.append((tuple(cmn), cls, set(failing), sig2))
+                        ck.count("violation-instance-of-a-single-instruction-finding." + cls)
+                        return sig2
+        # (3c) the last instruction has a single-instruction finding of its own in this run (any class):
+        # this is that defect in another context (gb `ld (de),a; ldi (hl),a`: LDI's destination bug, seen in af)
+        if len(cur) > 1:
+            for kmn, kcls, kfail, ksig in ctx.sigs:
+                if kmn == (cmn[-1],) and ksig != STORE_LOST_SIG and ksig.startswith("C02:%s:%s:" % (ctx.name, cmn[-1])):
+                    ctx.sigs.append((tuple(cmn), cls, set(failing), ksig))
+                    stats["signatures"][ksig]["count"] += 1
+                    ck.count("violation-instance-of-a-single-instruction-finding." + cls)
+                    return ksig
+        pcd = [x for x in rs.diffs if x[0] == "pc"]
+        if cls == "pc" and ctx.name == "armv7" and rs.exc is None and pcd and all(x[2] == x[3] | 1 and not x[3] & 1 for x in pcd):
+            # armv7 __check_state: `if address.bit(0) == 1: … fmap[pc_] = fmap(pc_ ^ 1)` is decided in Python,
+            # so interworking (clear bit 0, switch ARM/Thumb) only happens when pc is already a constant;
+            # every instruction that writes pc shows it
+            sig = "C02:armv7:<write to pc>:pc:bit0-cleared-only-when-pc-is-constant"
+            note = " (armv7 interworking decided in Python on a possibly symbolic pc)"
+            extra = {"culprit": cmn[-1]}
+            w = None
+        else:
+            # (2) the signedness flag
+            w = signedness_world(ctx, mode, cur, sid, setting, cls, d[4])
+        if w is None and sig.startswith("C02:%s:%s:" % (ctx.name, "+".join(cmn))) and len(cur) > 1 and rs.exc is None and \
+                split_agrees(ctx, mode, cur, sid, setting, cls, [x[4] for x in rs.diffs if x[0] == cls][:16]):
+            sig = family_signature(ctx.name, cmn[-1], cls, REEVAL_SUFFIX)
+            note = " (prefix map then last instruction's own map agrees with step by step: the last instruction's semantics go wrong only on top of the symbolic map of the prefix)"
+            extra = {"culprit": cmn[-1], "split_check": "(state >> map(prefix)) >> map(last) agrees with step-by-step"}
+        if w is None and sig.startswith("C02:%s:%s:" % (ctx.name, "+".join(cmn))) and len(cur) == 2 and cls == "mem" and rs.exc is None:
+            # load delay slot (mips): the store computes addr = fmap(base+off), then update_delayed() lands the
+            # pending load, then fmap[mem(addr)] evaluates addr again — now with the loaded register
+            try:
+                ins = ctx.decode(mode, cur)
+                m1 = mapper()
+                ins[0](m1)
+                pend = m1.generation().delayed
+                m2 = mapper()
+                ins[1](m2)
+                if pend is not None and pend[0]._is_reg and pend[0].ref in Ctx.map_inputs(m2):
+                    sig = family_signature(ctx.name, cmn[-1], cls, REEVAL_SUFFIX)
+                    note = " (the store's address is evaluated again after the pending delayed load of %s has landed)" % pend[0].ref
+                    extra = {"culprit": cmn[-1], "delayed_register": pend[0].ref}
+            except _Timeout:
+                raise
+            except Exception:
+                pass
+        if w is not None:
+            k = culprit_index(ctx, mode, cur, sid, setting, d[4])
+            sig = family_signature(ctx.name, cmn[k], cls, SF_SUFFIX)
+            extra = {"signedness_check": "difference disappears when every constant is read as %s" % ("unsigned" if w == "u" else "two's complement"),
+                     "culprit": cmn[k]}
+            note = " (signedness flag: the two routes agree once every constant is read as %s)" % ("unsigned" if w == "u" else "signed")
+    try:
+        text = "; ".join(str(i) for i in ctx.decode(mode, cur))
+    except Exception:
+        text = " ; ".join(cmn)
+    what = ("%s%s: `%s` from concrete state #%d (noaliasing=%s, memtrace=%s): %s is 0x%x when the block map is "
+            "applied to the state but 0x%x when the instructions run one by one on it [differs under: %s]%s"
+            % (ctx.name, "/thumb" if mode else "", text, sid, setting[0], setting[1], d[1], d[2], d[3],
+               "all four settings" if len(failing) == 4 else ", ".join(_setting_name(s) for s in failing), note))
+    case = {"isa": ctx.name, "mode": mode, "bytes": [b.hex() for b in cur], "mnemonics": cmn,
+            "noaliasing": setting[0], "memtrace": setting[1], "state": sid, "location": d[1],
+            "failing_settings": [list(s) for s in failing],
+            "original_bytes": [b.hex() for b in bss], "original_mnemonics": mn}
+    case.update(extra)
+    ctx.sigs.append((tuple(cmn), cls, set(failing), sig))
+    ent = stats["signatures"].setdefault(sig, {"count": 0, "what": what, "case": case,
+                                               "real": "%s = 0x%x" % (d[1], d[2]), "expected": "%s = 0x%x" % (d[1], d[3])})
+    ent["count"] += 1
+    ck.count("violation-instance." + cls)
+    ck.report(sig, what, "oracle", BROKEN, case=case, real="%s = 0x%x" % (d[1], d[2]),
+              expected="%s = 0x%x" % (d[1], d[3]), failing_input_found=True)
+    return sig
 
 
 # ---------------------------------------------------------------------------------------------
@@ -560,21 +999,96 @@ def _unlimit_address_space(old):
             pass
 
 
+class _Alarm(object):
+    """wall-clock guard around a piece of work: SIGALRM raises _Timeout in the main thread; the timer
+    repeats, so that a _Timeout swallowed somewhere (a __del__, a bare except) is raised again"""
+
+    def __init__(self):
+        self.ok = False
+        self.old = None
+        self.armed = False
+        try:
+            self.old = signal.signal(signal.SIGALRM, self._fire)
+            self.ok = True
+        except Exception:          # not the main thread: no guard
+            pass
+
+    def _fire(self, signum, frame):
+        if self.armed:
+            raise _Timeout()
+
+    def arm(self, seconds):
+        if self.ok:
+            self.armed = True
+            signal.setitimer(signal.ITIMER_REAL, seconds, 0.25)
+
+    def disarm(self):
+        # the timer repeats: a signal may arrive while we are here; once `armed` is false the handler is silent
+        while self.ok:
+            try:
+                self.armed = False
+                signal.setitimer(signal.ITIMER_REAL, 0)
+                return
+            except _Timeout:
+                continue
+
+    def guarded(self, seconds, fn, *args):
+        """fn(*args) under the guard: (True, result), or (False, None) when it timed out.  The repeating
+        signal may arrive anywhere — also after fn has returned and before the timer is stopped — so the
+        whole arm/run/disarm sequence sits in one loop that swallows late signals."""
+        done, res = False, None
+        self.arm(seconds)
+        while True:
+            try:
+                if not done:
+                    res = fn(*args)
+                    done = True
+                self.armed = False
+                if self.ok:
+                    signal.setitimer(signal.ITIMER_REAL, 0)
+                return (True, res)
+            except _Timeout:
+                if done:
+                    continue
+                self.disarm()
+                return (False, None)
+            except BaseException:
+                self.disarm()
+                raise
+
+    def close(self):
+        self.disarm()
+        if self.ok:
+            signal.signal(signal.SIGALRM, self.old)
+
+
+# cheap ISA modules first, slow ones (conditional execution nests tests, large register files, many
+# failing cases to shrink) last: the time the cheap ones leave unused rolls over to the others
+ORDER = ["v850", "bpf", "dwarf", "eBPF", "wasm", "gb", "z80", "rv32i", "rv64i", "sh2", "sh4", "w65c02", "mips", "mipsLE",
+         "tricore", "avr", "ppc32", "e200", "msp430", "armv8", "pic18", "sparc", "x86", "x64", "armv7"]
+
+
+# share of the remaining budget an ISA gets (default 1): v850's semantics are no-ops (its `_pc` decorator
+# never calls the wrapped function), the last ones are slow per evaluation
+WEIGHT = {"v850": 0.25, "bpf": 0.5, "msp430": 2.0, "pic18": 2.0, "sparc": 2.5, "x86": 2.0, "x64": 2.0, "armv7": 2.5}
+
+
+def _new_isa_stats():
+    return {"sequences": 0, "evaluations": 0, "nontrivial": 0, "exceptions": {}, "exception_evals": 0,
+            "stays_symbolic_evals": 0, "stays_symbolic_locs": 0, "compared_locs": 0, "failing_evals": 0,
+            "mem_skipped": 0, "timeouts": 0, "by_length": {}, "mnemonics": 0, "dropped_instructions": {}}
+
+
 def run(ck, tier, r, budget_s):
     t0 = time.time()
     quick = tier == "quick"
-    deadline = t0 + 0.96 * budget_s
+    deadline = t0 + 0.93 * budget_s - 1.0
+    case_timeout = 1.5 if quick else 10.0
     stats = {"per_isa": {}, "signatures": {}, "unshrunk": [], "skipped_isas": {}}
     saved = (conf.Cas.noaliasing, conf.Cas.memtrace)
     oldlim = _limit_address_space()
-    use_alarm = False
-    try:
-        def _on_alarm(signum, frame):
-            raise _Timeout()
-        oldh = signal.signal(signal.SIGALRM, _on_alarm)
-        use_alarm = True
-    except Exception:
-        oldh = None
+    alarm = _Alarm()
+    sampled = [0]
     try:
         isas, bad = isa.load_all()
         for n, why in bad.items():
@@ -586,144 +1100,207 @@ def run(ck, tier, r, budget_s):
                     names.append(n)
                 else:
                     stats["skipped_isas"][n] = "no semantics (no uarch)"
+        names.sort(key=lambda n: ORDER.index(n) if n in ORDER else -1)
         membank = {e: (_mem_words(r, LOW_N, e), _mem_words(r, HIGH_N, e)) for e in (1, -1)}
-        cap = 200 if quick else 1000000
-        sampled = 0
         for idx, name in enumerate(names):
             now = time.time()
             if now >= deadline:
                 stats["skipped_isas"][name] = "budget used"
                 ck.count("isa-skipped(budget)")
                 continue
-            slice_s = (deadline - now) / (len(names) - idx)
-            slice_end = now + slice_s
-            st = stats["per_isa"][name] = {"sequences": 0, "evaluations": 0, "nontrivial": 0, "exceptions": {}, "exception_evals": 0,
-                                           "stays_symbolic_evals": 0, "stays_symbolic_locs": 0, "compared_locs": 0,
-                                           "failing_evals": 0, "mem_skipped": 0, "timeouts": 0, "by_length": {}, "mnemonics": 0}
+            slice_s = (deadline - now) * WEIGHT.get(name, 1.0) / sum(WEIGHT.get(n, 1.0) for n in names[idx:])
             conf.Cas.noaliasing, conf.Cas.memtrace = True, True
+            def _setup():
+                c = Ctx(name, isas[name], membank)
+                c.build_pools(r)
+                return c
             try:
-                ctx = Ctx(name, isas[name], membank)
-                if use_alarm:
-                    signal.setitimer(signal.ITIMER_REAL, max(20.0, 4 * slice_s))
-                ctx.build_pools(r)
-            except _Timeout:
-                stats["skipped_isas"][name] = "building the spec pools timed out"
-                continue
+                ok, ctx = alarm.guarded(max(20.0, 4 * slice_s), _setup)
             except Exception as ex:
                 stats["skipped_isas"][name] = "setup fails: %s: %s" % (type(ex).__name__, ex)
                 continue
-            finally:
-                if use_alarm:
-                    signal.setitimer(signal.ITIMER_REAL, 0)
-            if not any(any(c.values()) for c, _ in ctx.pools.values()):
-                stats["skipped_isas"][name] = "nothing executes (no decodable instruction with an i_MNEMONIC)"
-                del stats["per_isa"][name]
+            if not ok:
+                stats["skipped_isas"][name] = "building the spec pools timed out"
                 continue
+            if not any(any(c.values()) for c, _ in ctx.pools.values()):
+                stats["skipped_isas"][name] = "nothing executes (no decodable instruction whose i_MNEMONIC runs)"
+                continue
+            st = stats["per_isa"][name] = _new_isa_stats()
             st["setup_s"] = round(time.time() - now, 2)
-            shrink_t = [0.0]
-
-            def allow_shrink():
-                return shrink_t[0] < 0.45 * slice_s or not quick
-            nseq = 0
-            while nseq < cap and time.time() < slice_end:
-                L = r.choice([1, 1, 2, 2, 3, 3, 4, 4, 5, 6, 7, 8])
-                mode = r.choice(ctx.modes) if (len(ctx.modes) > 1 and r.random() < 0.35) else 0
-                bss = ctx.gen_sequence(mode, L, r)
-                sids = r.choice([[0, 1], [0, 2], [1, 2]])
-                if bss is None:
-                    break
-                try:
-                    mn = mnemonics(ctx, mode, bss)
-                except Exception:
-                    ck.count("sequence-dropped(decode)")
-                    continue
-                if "?" in mn:
-                    ck.count("sequence-dropped(decode)")
-                    continue
-                nseq += 1
-                st["sequences"] += 1
-                st["by_length"][len(bss)] = st["by_length"].get(len(bss), 0) + 1
-                ck.count("isa.%s" % name)
-                ck.count("length.%d" % len(bss))
-                ctx.mnems.update(mn)
-                settings = [SETTINGS[nseq % 4]] if quick else SETTINGS
-                for setting in settings:
-                    try:
-                        if use_alarm:
-                            signal.setitimer(signal.ITIMER_REAL, CASE_TIMEOUT)
-                        results = evaluate(ctx, mode, bss, sids, setting)
-                    except _Timeout:
-                        st["timeouts"] += 1
-                        ck.count("timeout")
-                        continue
-                    finally:
-                        if use_alarm:
-                            signal.setitimer(signal.ITIMER_REAL, 0)
-                    for res, sid in zip(results, sids):
-                        st["evaluations"] += 1
-                        ck.count("setting.%s" % _setting_name(setting))
-                        fp = (name, mode, tuple(bss), sid, setting)
-                        if res.exc is not None:
-                            k = "%s:%s" % (res.exc[0], res.exc[1])
-                            st["exceptions"][k] = st["exceptions"].get(k, 0) + 1
-                            st["exception_evals"] += 1
-                            ck.count("exception.%s" % res.exc[1])
-                            ck.case(fp, nontrivial=False)
-                            continue
-                        ck.case(fp, nontrivial=res.nontrivial)
-                        st["nontrivial"] += bool(res.nontrivial)
-                        st["compared_locs"] += res.ncmp
-                        nsym = res.nsym_reg + res.nsym_mem
-                        if nsym:
-                            st["stays_symbolic_evals"] += 1
-                            st["stays_symbolic_locs"] += nsym
-                            ck.count("stays-symbolic-on-route-A")
-                        if res.bsym:
-                            ck.count("symbolic-on-route-B")
-                        if res.memskip:
-                            st["mem_skipped"] += 1
-                            ck.count("memory-not-compared(%s)" % res.memskip)
-                        if res.unmapped:
-                            ck.count("memory-unmapped-on-one-route")
-                        if sampled < 3 and res.nontrivial and not res.diffs and idx in (0, len(names) // 3, (2 * len(names)) // 3):
-                            sampled += 1
-                            ck.sample({"C02-isa-oracle": name, "bytes": [b.hex() for b in bss], "mnemonics": mn, "state": sid,
-                                       "setting": _setting_name(setting), "compared": res.ncmp, "stays_symbolic": nsym})
-                        if res.diffs:
-                            st["failing_evals"] += 1
-                            ts = time.time()
-                            try:
-                                if use_alarm:
-                                    signal.setitimer(signal.ITIMER_REAL, 12 * CASE_TIMEOUT)
-                                handle_failure(ck, ctx, stats, mode, bss, sid, setting, res, allow_shrink)
-                            except _Timeout:
-                                st["timeouts"] += 1
-                                ck.count("timeout(shrinking)")
-                            finally:
-                                if use_alarm:
-                                    signal.setitimer(signal.ITIMER_REAL, 0)
-                            shrink_t[0] += time.time() - ts
+            _run_isa(ck, ctx, st, stats, r, quick, now, slice_s, min(deadline, now + slice_s), alarm, case_timeout, sampled)
             st["mnemonics"] = len(ctx.mnems)
-            st["shrink_s"] = round(shrink_t[0], 2)
+            st["dropped_instructions"] = dict(ctx.dropped)
             st["wall_s"] = round(time.time() - now, 2)
             ck.count("mnemonics-reached.%s" % name, len(ctx.mnems))
+            for k, v in ctx.dropped.items():
+                ck.count("instruction-not-used(%s)" % k, v)
             ctx.restore(0)
     finally:
         conf.Cas.noaliasing, conf.Cas.memtrace = saved
-        if use_alarm:
-            signal.setitimer(signal.ITIMER_REAL, 0)
-            signal.signal(signal.SIGALRM, oldh)
+        alarm.close()
         _unlimit_address_space(oldlim)
     tot = {"sequences": 0, "evaluations": 0, "exception_evals": 0, "stays_symbolic_evals": 0, "failing_evals": 0, "nontrivial": 0}
     for v in stats["per_isa"].values():
         for k in tot:
             tot[k] += v[k]
     stats["total"] = tot
-    stats["isas"] = sorted(stats["per_isa"])
+    stats["isas"] = [n for n in names if n in stats["per_isa"]]
     stats["wall_s"] = round(time.time() - t0, 2)
     ck.cov["C02_isa_oracle"] = {"isas": stats["isas"], "skipped": stats["skipped_isas"], "total": tot,
                                 "signatures": sorted(stats["signatures"]), "unshrunk": len(stats["unshrunk"])}
     return stats
+
+
+def _run_isa(ck, ctx, st, stats, r, quick, start, slice_s, slice_end, alarm, case_timeout, sampled):
+    name = ctx.name
+    shrink_t = [0.0]
+    maxlen = [8]
+
+    def allow_shrink():
+        return (not quick) or shrink_t[0] < 0.6 * slice_s
+
+    def one_sequence(mode, bss, nseq, sids=None):
+        try:
+            mn = mnemonics(ctx, mode, bss)
+        except Exception:
+            mn = ["?"]
+        if "?" in mn:
+            ck.count("sequence-dropped(decodes differently the second time)")
+            return False
+        st["sequences"] += 1
+        st["by_length"][len(bss)] = st["by_length"].get(len(bss), 0) + 1
+        ck.count("isa.%s" % name)
+        ck.count("length.%d" % len(bss))
+        ctx.mnems.update(mn)
+        if sids is None:
+            sids = r.choice([[0, 1], [0, 2], [1, 2]])
+            if quick and len(ctx.regs) > 200:
+                sids = [sids[nseq % 2]]             # very large register files (sparc): one state per sequence in the quick tier
+        settings = [SETTINGS[nseq % 4]] if quick else SETTINGS
+        for setting in settings:
+            ok, results = alarm.guarded(case_timeout, evaluate, ctx, mode, bss, sids, setting)
+            if not ok:
+                st["timeouts"] += 1
+                ck.count("timeout")
+                if len(bss) > 2 and maxlen[0] >= len(bss):
+                    maxlen[0] = len(bss) - 1            # this ISA's maps explode: shorter sequences from now on
+                    ck.count("length-capped-after-timeout.%s" % name)
+                continue
+            for res, sid in zip(results, sids):
+                st["evaluations"] += 1
+                ck.count("setting.%s" % _setting_name(setting))
+                fp = (name, mode, tuple(bss), sid, setting)
+                if res.exc is not None:
+                    k = "%s:%s" % (res.exc[0], res.exc[1])
+                    st["exceptions"][k] = st["exceptions"].get(k, 0) + 1
+                    st["exception_evals"] += 1
+                    ck.count("exception.%s" % res.exc[1])
+                    ck.case(fp, nontrivial=False)
+                    continue
+                ck.case(fp, nontrivial=res.nontrivial)
+                st["nontrivial"] += bool(res.nontrivial)
+                st["compared_locs"] += res.ncmp
+                nsym = res.nsym_reg + res.nsym_mem
+                if nsym:
+                    st["stays_symbolic_evals"] += 1
+                    st["stays_symbolic_locs"] += nsym
+                    ck.count("stays-symbolic-on-route-A")
+                if res.bsym:
+                    ck.count("symbolic-on-route-B")
+                if res.memskip:
+                    st["mem_skipped"] += 1
+                    ck.count("memory-not-compared(%s)" % res.memskip)
+                if res.unmapped:
+                    ck.count("memory-unmapped-on-one-route")
+                if res.out_of_scope:
+                    st["out_of_scope"] = st.get("out_of_scope", 0) + 1
+                    ck.count("difference-out-of-scope(noaliasing=True and distinct pointers overlap in the state)")
+                if sampled[0] < 3 and res.nontrivial and not res.diffs and len(bss) > 1 and st["sequences"] > 40 + 25 * sampled[0]:
+                    sampled[0] += 1
+                    ck.sample({"C02-isa-oracle": name, "bytes": [b.hex() for b in bss], "mnemonics": mn, "state": sid,
+                               "setting": _setting_name(setting), "compared": res.ncmp, "stays_symbolic": nsym})
+                if res.diffs:
+                    st["failing_evals"] += 1
+                    ts = time.time()
+                    ok, _ = alarm.guarded(12 * case_timeout, handle_failure, ck, ctx, stats, mode, bss, sid, setting, res, allow_shrink)
+                    if not ok:
+                        st["timeouts"] += 1
+                        ck.count("timeout(shrinking)")
+                    shrink_t[0] += time.time() - ts
+        return True
+
+    nseq = 0
+    # phase 1: single instructions from all three states — every load/store spec, and one spec of every other
+    # mnemonic (thorough: every spec) — so that the set of single-instruction findings does not depend on
+    # the seed; capped in the quick tier
+    todo = []
+    for mode in ctx.modes:
+        specs = list(ctx.pools[mode][0]["mem"])
+        if quick and len(specs) > 80:
+            specs = r.sample(specs, 80)
+        have = set(id(x) for x in specs)
+        others, seen = [], set()
+        for mnem, _, sp in sorted(ctx.usable.get(mode, []), key=lambda x: (x[0], x[1])):
+            if id(sp) in have or (quick and mnem in seen):
+                continue
+            seen.add(mnem)
+            others.append(sp)
+        if quick and len(others) > 120:
+            others = r.sample(others, 120)
+        todo += [(mode, sp) for sp in specs + others]
+    for mode, sp in todo:
+        if time.time() >= start + 0.35 * slice_s:
+            ck.count("phase1-cut(budget).%s" % name)
+            break
+        got = None
+        for _ in range(3):
+            got = ctx.sample_spec(mode, sp, r)
+            if got is not None:
+                break
+        if got is None:
+            continue
+        nseq += 1
+        one_sequence(mode, [got[0]], nseq, sids=list(range(NSTATES)))
+    st["phase1_sequences"] = st["sequences"]
+    # phase 1b: for every mnemonic (quick: one spec per mnemonic, capped; thorough: every spec) a directed pair
+    # [X, Y] where X writes a register that Y reads: finds, whatever the seed, the semantics that evaluate an
+    # operand twice or otherwise depend on the symbolic map they are built on
+    todo = []
+    for mode in ctx.modes:
+        us = sorted(ctx.usable.get(mode, []), key=lambda x: (x[0], x[1]))
+        if quick:
+            seen, one = set(), []
+            for mnem, _, sp in us:
+                if mnem not in seen:
+                    seen.add(mnem)
+                    one.append((mnem, sp))
+            if len(one) > 110:
+                one = r.sample(one, 110)
+            todo += [(mode, sp) for _, sp in one] * max(1, min(3, 110 // max(1, len(one))))
+        else:
+            todo += [(mode, sp) for _, _, sp in us]
+    for mode, sp in todo:
+        if time.time() >= start + 0.7 * slice_s:
+            ck.count("phase1b-cut(budget).%s" % name)
+            break
+        bss = ctx.gen_pair(mode, sp, r)
+        if bss is None:
+            ck.count("phase1b-no-pair")
+            continue
+        nseq += 1
+        one_sequence(mode, bss, nseq)
+    st["phase1b_sequences"] = st["sequences"] - st["phase1_sequences"]
+    # phase 2: random sequences
+    cap = nseq + (80 if quick else 10 ** 9)
+    while nseq < cap and time.time() < slice_end:
+        L = min(r.choice([1, 2, 2, 3, 3, 4, 4, 5, 6, 7, 8]), maxlen[0])
+        mode = r.choice(ctx.modes) if (len(ctx.modes) > 1 and r.random() < 0.35) else 0
+        bss = ctx.gen_sequence(mode, L, r)
+        if bss is None:
+            break
+        nseq += 1
+        one_sequence(mode, bss, nseq)
+    st["shrink_s"] = round(shrink_t[0], 2)
 
 
 if __name__ == "__main__":
